@@ -759,3 +759,34 @@ func (s *Solver) checkOneShot(extra []*Term) Result {
 	}
 	return res
 }
+
+// OneShot runs a raw SMT-LIB script through one solver process and returns the
+// first answer line ("sat"/"unsat"/...). Any "(error" in the output is an error.
+func OneShot(kind, script string, timeoutMs int) (string, error) {
+	var cmd *exec.Cmd
+	pre := ""
+	switch kind {
+	case "z3":
+		cmd = exec.Command("/usr/bin/z3", "-in", "-smt2", fmt.Sprintf("-t:%d", timeoutMs))
+	case "z3-new":
+		cmd = exec.Command("z3-new", "-in", "-smt2", fmt.Sprintf("-t:%d", timeoutMs))
+	case "cvc5":
+		cmd = exec.Command("cvc5", "--lang", "smt2", fmt.Sprintf("--tlimit=%d", timeoutMs))
+		pre = "(set-logic ALL)\n"
+	case "cvc5-int":
+		cmd = exec.Command("cvc5", "--lang", "smt2", "--solve-bv-as-int=sum", fmt.Sprintf("--tlimit=%d", timeoutMs))
+		pre = "(set-logic ALL)\n"
+	default:
+		return "", fmt.Errorf("unknown solver %q", kind)
+	}
+	cmd.Stdin = strings.NewReader(pre + script + "\n")
+	out, err := cmd.Output()
+	text := strings.TrimSpace(string(out))
+	if strings.Contains(text, "(error") {
+		return "", fmt.Errorf("solver error: %s", text)
+	}
+	if text == "" {
+		return "", fmt.Errorf("no answer (%v)", err)
+	}
+	return strings.TrimSpace(strings.SplitN(text, "\n", 2)[0]), nil
+}
